@@ -3,6 +3,7 @@
 package bind
 
 import (
+	"context"
 	"database/sql"
 	"database/sql/driver"
 	"encoding/json"
@@ -504,6 +505,15 @@ func Run(base *gorm.DB, p Prog) *gorm.DB {
 	case "update_returning":
 		out := sl()
 		return tx.Model(out).Clauses(clause.Returning{Columns: []clause.Column{{Name: "id"}}}).Update(p.Fin.Pay[0].Col, p.Fin.Pay[0].V.Go())
+	case "save":
+		// a record that has its key: Save updates it (through a session gorm derives itself)
+		w := wOf(p.Fin.Pay)
+		w.ID = 1
+		return base.Save(rec(w))
+	case "create_batches":
+		// (the handle CreateInBatches returns is not the one that executed: only the driver silence is judged)
+		ws := []W{wOf(p.Fin.Pay), wOf(p.Fin.Pay2), wOf(p.Fin.Pay)}
+		return base.WithContext(context.Background()).CreateInBatches(&ws, 2)
 	case "create":
 		return base.Create(rec(wOf(p.Fin.Pay)))
 	case "create_slice":
@@ -782,7 +792,7 @@ func (g *gen) pay(n int) []Pair {
 func RandProg(r *rand.Rand) Prog {
 	g := &gen{r: r}
 	var p Prog
-	kinds := []string{"find", "first", "count", "pluck", "update", "updates", "updates_map", "delete", "delete_returning", "update_returning", "create", "create_slice", "create_map", "upsert", "raw", "exec", "rows"}
+	kinds := []string{"find", "first", "count", "pluck", "update", "updates", "updates_map", "delete", "delete_returning", "update_returning", "create", "create_slice", "create_map", "upsert", "raw", "exec", "rows", "save", "create_batches"}
 	p.Fin.Kind = kinds[r.Intn(len(kinds))]
 	p.Soft = r.Intn(3) == 0
 	switch p.Fin.Kind {
@@ -802,9 +812,13 @@ func RandProg(r *rand.Rand) Prog {
 	case "create", "create_map":
 		p.Fin.Pay = g.pay(1 + r.Intn(8))
 		return p
-	case "create_slice":
+	case "create_slice", "create_batches":
 		p.Fin.Pay = g.pay(8)
 		p.Fin.Pay2 = g.pay(8)
+		p.Soft = p.Soft && p.Fin.Kind == "create_slice"
+		return p
+	case "save":
+		p.Fin.Pay = g.pay(8)
 		return p
 	case "upsert":
 		p.Fin.Pay = g.pay(8)
